@@ -63,6 +63,8 @@ Next ==
        \* (Decode puts its own buffer in front); "byte": the decoder reads the pieces directly
        \/ t[1] = "transport" /\ t' \in {<<"transport", [mode |-> m, pat |-> pt]>> :
                                             m \in {"plain", "byte"}, pt \in NonEmptySeqs(CSizes, 2)}
+       \* receivers: the class of the value a receiver holds before the value under test is decoded into it
+       \/ t[1] = "transport" /\ t' \in {<<"receiver", c>> : c \in {"empty", "full", "small", "lossless", "large", "many", "holes", "other"}}
        \/ t[1] = "prim" /\ t' \in {<<"coder", xs>> : xs \in NonEmptySeqs(0..(2 ^ WP - 1), 4)}
        \/ t[1] = "prim" /\ t' \in {<<"zigzag", w>> : w \in {WP, W}}
        \/ t[1] = "prim" /\ t' \in {<<"interleave", x>> : x \in 0..(2 ^ W - 1)}
@@ -106,6 +108,18 @@ ThTransport ==
             IN  /\ ChunkingInvariant(StandIn(n), szs, Val.pat)
                 /\ ChunkingInvariant(StandIn(n - 5), szs, Val.pat)
 
+\* Decode does not depend on the receiver: model polygons of every class decoded over one another
+ProbeFull == <<MkLoop(<<Vtx(5, M \div 2, M \div 2, TRUE)>>, TRUE, 0)>>
+ProbeMany == [j \in 1..14 |-> LoopOf(<<VASeq[1], VASeq[2], VASeq[3]>>)]
+ProbeOf(c) == CASE c = "empty" -> <<>> [] c = "full" -> ProbeFull [] c = "many" -> ProbeMany
+                [] c = "holes" -> <<LoopOf(<<VASeq[1], VASeq[2], VASeq[3]>>), MkLoop(<<VOf(VASeq[2]), VOf(VASeq[1]), VOf(VASeq[3])>>, FALSE, 1)>>
+                [] OTHER -> TransportProbe
+ThReceiver ==
+    Full /\ Kind = "receiver" =>
+        \A target \in {<<>>, ProbeFull, ProbeMany, TransportProbe} :
+            /\ ReceiverLaw(ProbeOf(Val), target)
+            /\ DecodeInto(ZeroPoly, target).numEdges = (IF IsFullP(target) THEN 0 ELSE Len(AllVerts(target)))
+
 \* ---- emission ---------------------------------------------------------------
 Slim(fs) == [i \in 1..Len(fs) |-> [r |-> fs[i].r, b |-> fs[i].b, ref |-> fs[i].ref]]
 VJson(v) == <<v.f, v.si, v.ti, IF v.ex THEN 1 ELSE 0, VLevel(v)>>
@@ -147,5 +161,6 @@ Emit ==
            [] Kind = "uvarint" ->
                 PrintT(<<"CASE", ToJson([op |-> "wireprim", p |-> "uvarint", w |-> 0, xs |-> <<Val>>, enc |-> UV(Val)])>>)
            [] Kind = "transport" -> PrintT(<<"TRANSPORT", ToJson(Val)>>)
+           [] Kind = "receiver" -> PrintT(<<"RECEIVER", ToJson([class |-> Val])>>)
            [] OTHER -> TRUE
 =============================================================================
